@@ -112,3 +112,17 @@ Definition family_multi : list multi_case :=
 Definition check_multi_with (f : str -> str -> str) (z : str -> bool) (c : multi_case) : bool :=
   z (fst c) || (beq (f (fst c) (snd (snd c))) (fst (snd c)) && beq (f (fst (snd c)) (snd (snd c))) (fst (snd c))).
 Definition check_multi (c : multi_case) : bool := check_multi_with mask_password in_zone c.
+
+(* the EMPTY mask: every quoted / XML / dict / command-list rendering is judged in full (value replaced by nothing,
+   idempotent); the --k form only for "exactly the value is replaced" (with an empty mask the masked --k / bare / k --flag
+   forms leave the key followed by white space and the next word, which a second application reads as a new value) *)
+Definition quoted_forms (i : nat) : bool := existsb (Nat.eqb i) [2; 3; 4; 6; 7; 8; 9; 10]%nat.
+Definition family_empty : list case :=
+  flat_map (fun KD => mk_sub quoted_forms (lit "run ") (lit " ok") [] KD (fixed_values [lit "s3cret"; [233; 94]]))
+           [lit "password"; lit "Token"; lit "auth_password"].
+Definition family_empty_dd : list case :=
+  flat_map (fun KD => mk_sub (fun i => Nat.eqb i 5) (lit "run ") (lit " ok") [] KD (fixed_values [lit "s3cret"]))
+           [lit "password"; lit "Token"; lit "sslkey"].
+Definition check_first_with (f : str -> str -> str) (z : str -> bool) (c : case) : bool :=
+  z (case_msg c) || beq (f (case_msg c) (case_mask c)) (case_want c).
+Definition check_first (c : case) : bool := check_first_with mask_password in_zone c.
